@@ -50,6 +50,20 @@ def run(ctx: Ctx) -> None:
         f = ctx.work / v["file"]
         ctx.violation(v["c"], f"{v['c']}/{v['s']}", witness=v["w"], line=v["line"], file=v["file"], count=v["n"],
                       record=core.excerpt(f, v["line"], before=0, maxlen=1500))
+    # ... and inside the step pipeline: the Dispatcher's emissions of whole runs (shift changes, re-dispatch) against the
+    # state the generators are handed in that step (HiveTrace!C12_Gen)
+    pipe: List[Dict[str, Any]] = []
+    for k in range(ctx.pick(16, 160)):
+        focus = ["shift", "dispatch", "fleet", None][k % 4]
+        pipe.append({"id": f"pipe{base + k}", "kind": "adv", "seed": 180000 + base + k, "steps": 150 if focus == "shift" else 50, "weight": 2,
+                     "mix": "builtin", "world_kwargs": {"focus": focus} if focus else {}, "with_route": False})
+    pfiles = core.produce(ctx, pipe)
+    tvp = core.validate(ctx, pfiles, {"C12"})
+    ctx.coverage["pipeline_events_validated"] = tvp.lines
+    for v in tvp.viol:
+        f = ctx.work / v["file"]
+        ctx.violation(v["c"], f"{v['c']}/{v['s']}", witness=v["w"], line=v["line"], file=v["file"], count=v["n"],
+                      excerpt=core.excerpt(f, v["line"], before=1, maxlen=600))
 
 
 def validate_records(ctx: Ctx, files, cfg: str):
